@@ -251,13 +251,16 @@ loop:
 }
 
 // skipWhitespace consumes whitespace characters and comments.
-// It returns true if there was actually anything to skip.
+// It returns true if there was actually whitespace to skip
+// (comments alone are not whitespace: they produce no token).
 func (p *parser) skipWhitespace() bool {
 	i := p.i
+	sawSpace := false
 	for i < len(p.s) {
 		switch p.s[i] {
 		case ' ', '\t', '\r', '\n', '\f':
 			i++
+			sawSpace = true
 			continue
 		case '/':
 			if strings.HasPrefix(p.s[i:], "/*") {
@@ -273,7 +276,7 @@ func (p *parser) skipWhitespace() bool {
 
 	if i > p.i {
 		p.i = i
-		return true
+		return sawSpace
 	}
 
 	return false
@@ -788,6 +791,14 @@ loop:
 			newPseudoElement string
 			err              error
 		)
+		// a comment between two simple selectors does not end the compound
+		if p.s[p.i] == '/' {
+			save := p.i
+			if p.skipWhitespace() || p.i >= len(p.s) {
+				p.i = save
+				break loop
+			}
+		}
 		switch p.s[p.i] {
 		case '#':
 			ns, err = p.parseIDSelector()
